@@ -40,6 +40,10 @@ fn alphabet(first_ttl: u8) -> Vec<Shape> {
     ] {
         v.push(Shape { first_ttl, outs, largest_ttl: None });
     }
+    // the strategy carries the target's distance over from an earlier round: a round in which
+    // nothing (or only a nearer hop) answers is then still published with that path length
+    v.push(Shape { first_ttl, outs: vec![Out::A, Out::A, Out::A], largest_ttl: Some(first_ttl + 2) });
+    v.push(Shape { first_ttl, outs: vec![c(1), Out::A, Out::A], largest_ttl: Some(first_ttl + 2) });
     v
 }
 
